@@ -5,6 +5,7 @@ Model: `RedunModel.Model.SchedCore` with `dryrun = true` (`_exec_job_main_thread
 `executor.submit`, consumes no limits; the loop ends when the queue is empty).
 -/
 import RedunModel.Lemmas.SchedDry
+import RedunModel.Lemmas.SchedDryConv
 namespace RedunModel.C28
 open RedunModel.SchedCore
 
@@ -89,5 +90,70 @@ example : (popN cachedProg 9 init).submits = [] ∧ ((popN cachedProg 9 init).jo
   ⟨h.2.1, h.2.2⟩
 /-- and the hypothesis is not always true: with an uncached job the dry run's root never resolves -/
 example : ((popN (asDry uncachedProg) 3 init).jobs 0).status = Status.pending := by decide
+
+/-! ### the converse: a dry run that stops predicts a real run that executes something -/
+
+/-- CONVERSE prediction theorem.  Suppose the dry run serves its first `n` events from twins and the cache
+and its next event is the execution of a job `j` that misses both and has an executor (the point where
+`_exec_job_main_thread` takes the "would run" exit).  Then the real run on the same backend state, with
+feasible limits, goes through the same `n` states and at that very event hands `j` to its executor. -/
+theorem incomplete_predicts (p : Prog) (hd : p.dryrun = false) (hf : Feasible p) (n : Nat)
+    (hfin : ∀ k, k < n → (popN (asDry p) k init).finished = false)
+    (hno : ∀ k, k < n → missAtHead p (popN (asDry p) k init) = false)
+    (j : JobId) (rest : List Ev) (hq : (popN (asDry p) n init).queue = Ev.exec j :: rest)
+    (hm : missAtHead p (popN (asDry p) n init) = true)
+    (he : (spec p (popN (asDry p) n init) j).execOk = true) :
+    popN p n init = popN (asDry p) n init ∧ (popN p (n + 1) init).submits = [j] ∧
+      (popN p (n + 1) init).inflight j = true := by
+  have h1 := dry_real_lockstep p n init hno
+  have hr : Reachable (asDry p) (popN (asDry p) n init) := reachable_popN (asDry p) n hfin
+  have hi := reachable_inv (asDry p) _ hr
+  have hh := (hi.core.dry rfl).2
+  have hu := used_zero_of_no_holder (asDry p) _ hi hh
+  have hsub := (reachable_dry (asDry p) rfl _ hr).sub
+  have := miss_submits p hd hf (popN (asDry p) n init) hu j rest hq hm he
+  refine ⟨h1, ?_, ?_⟩
+  · rw [popN_succ, h1, this.1, hsub]
+    rfl
+  · rw [popN_succ, h1]
+    exact this.2
+
+/-- …and so does EVERY real run (whatever the executors do): a reachable state of the real run is one of
+those first `n + 1` common states, or at least one job has been handed to an executor. -/
+theorem incomplete_every_run (p : Prog) (hd : p.dryrun = false) (hf : Feasible p) (n : Nat)
+    (hfin : ∀ k, k < n → (popN (asDry p) k init).finished = false)
+    (hno : ∀ k, k < n → missAtHead p (popN (asDry p) k init) = false)
+    (j : JobId) (rest : List Ev) (hq : (popN (asDry p) n init).queue = Ev.exec j :: rest)
+    (hm : missAtHead p (popN (asDry p) n init) = true)
+    (he : (spec p (popN (asDry p) n init) j).execOk = true)
+    (t : S) (ht : Reachable p t) : (∃ k, k ≤ n ∧ t = popN p k init) ∨ t.submits ≠ [] := by
+  have hmain := incomplete_predicts p hd hf n hfin hno j rest hq hm he
+  induction ht with
+  | init => exact Or.inl ⟨0, Nat.zero_le _, rfl⟩
+  | step hr hs ih =>
+    rcases ih with ⟨k, hk, rfl⟩ | hne
+    · have hlock : popN p k init = popN (asDry p) k init :=
+        dry_real_lockstep p k init (fun i hi => hno i (Nat.lt_of_lt_of_le hi hk))
+      cases hs with
+      | pop _ _ =>
+        rw [← popN_succ]
+        by_cases hkn : k < n
+        · exact Or.inl ⟨k + 1, hkn, rfl⟩
+        · have : k = n := Nat.le_antisymm hk (Nat.le_of_not_lt hkn)
+          subst this
+          refine Or.inr ?_
+          rw [hmain.2.1]
+          simp
+      | complete i _ hinf =>
+        rw [hlock] at hinf
+        have := (dryInv_popN (asDry p) rfl k init ⟨rfl, fun _ => rfl⟩).infl i
+        rw [this] at hinf
+        exact absurd hinf (by simp)
+    · exact Or.inr (step_sub_ne p _ _ hs hne)
+
+/-! non-vacuity: `uncachedProg` misses at its first event; the real run submits job 0 there -/
+example : (popN uncachedProg 1 init).submits = [0] :=
+  (incomplete_predicts uncachedProg rfl (by intro i r; rcases i with _ | i <;> exact Nat.zero_le _) 0
+    (by intro k hk; omega) (by intro k hk; omega) 0 [] rfl (by decide) (by decide)).2.1
 
 end RedunModel.C28
